@@ -416,6 +416,47 @@ theorem collect_limit_fits (n : Nat) (limit : Option Int) (hn : (n : Int) ≤ Ge
     · simp only [h, if_false]
       omega
 
+/-! ## Pass 6 — the caller's argument objects
+
+A program may hold a selection in a variable and pass the same object to two operations
+(`cols = ["d", "b"]; a.collect(cols); b[cols]`).  In the list model an argument is a value; on the objects it
+stays one only if no operation writes into the object it was given.  `Gen.Frame.writesCallerArgument` is
+regenerated from the argument-handling statements of `collect`, `select`, `filter` and `take` on every run. -/
+
+/-- **No operator writes into the sequence object it is given** — column list of `collect` / `[]`, attribute list of
+`select`, mask of `filter`, index collection of `take`, whether the caller passed a bare value, a list, a set or a
+tuple (a change that stops copying one of them turns an entry of the generated table to `true`). -/
+theorem no_operator_writes_its_argument (op : String) (kind : Nat) :
+    Gen.Frame.writesCallerArgument op kind = false := by
+  unfold Gen.Frame.writesCallerArgument
+  split <;> rfl
+
+/-- **`collect` leaves the caller's list as it was**: after `df.collect(cols)` / `df[cols]` the object `cols` holds
+what the caller put in it — for every kind of argument, every frame layout, every list of names and positions
+(names the frame does not have included: the `ValueError` leaves the list untouched too). -/
+theorem collect_leaves_argument (kind : Nat) (names : List String) (arg : List ColRef) :
+    collectArgAfter kind names arg = arg := by
+  unfold collectArgAfter
+  rw [no_operator_writes_its_argument]
+  rfl
+
+/-- **The second use of the same list object** — on a frame with any other layout (`sch'`, `rows'`) — answers what
+the list model says for the list the caller wrote: `collectOp` of the object as the first call left it is
+`collectOp` of the original selection (whose value is `collectOp_spec`). -/
+theorem collect_second_use_of_same_argument [Inhabited α] (kind : Nat) (sch sch' : Schema) (rows' : List (List α))
+    (cols : List ColRef) (limit' : Option Int) :
+    collectOp sch' rows' (collectArgAfter kind sch.names cols) limit' = collectOp sch' rows' cols limit' := by
+  rw [collect_leaves_argument]
+
+/-- What the theorems above exclude: were the positions written into the caller's list (`resolveInPlace`), the
+second use on a frame laid out differently would read other columns — on `(a, b)` then `(b, a)`, `["a"]` becomes
+`[0]`, which is `b` there. -/
+theorem resolveInPlace_changes_second_use :
+    resolveInPlace ["a", "b"] [.name "a"] = [.idx 0]
+    ∧ resolveCols ["b", "a"] (resolveInPlace ["a", "b"] [.name "a"]) = .ok [0]
+    ∧ resolveCols ["b", "a"] [.name "a"] = .ok [1] := by
+  refine ⟨by rfl, by rfl, by rfl⟩
+
 /-- `collect` / indexing on a frame, with the glue of `DataFrame.collect` and `collect_cython` around
 the transpose: names are resolved to their first position (`ValueError` for a name that is not a
 column); an empty frame or an empty column list gives one empty list per column; a position outside
